@@ -37,7 +37,7 @@ def run(tier):
         ck.sample({"case": ev.get("case"), "how": ev.get("how"), "ops": ev.get("ops"), "tables": {k: ev["f"][k] for k in ("nblocks", "types", "tidx", "sizes", "hdrLen", "len", "end", "footer")}})
     # files of the round-trip machine
     tr = os.path.join(wd, "samples.ndjson")
-    rc, out, err = vlib.run_harness(exe, ["c01-samples", tr], timeout=3000)
+    rc, out, err = vlib.run_harness(exe, ["c01-samples", tr, "2" if tier == "quick" else "12"], timeout=6000)
     if rc != 0:
         raise vlib.InfraError("c01-samples failed: " + err[-1500:])
     lines = c01.judge(ck, "C07", tr, "samples", only_prefix=c01.is_c07)
